@@ -139,6 +139,22 @@ def install(repo_root):
   for name in ('Condition', 'Semaphore', 'BoundedSemaphore', 'Barrier', 'Timer'):
     setattr(threading, name, _wrap_class(name, getattr(threading, name)))
   threading.Event = _make_sim_event(threading.Event)
+  # Thread identifiers seen by repository code are simulated: the values the OS hands out (and whether a new
+  # thread gets the identifier of one that ended) differ from execution to execution, and code that keys state
+  # by them would make runs unrepeatable.  Everybody else (threading.py itself included) keeps the real ones.
+  real_get_ident = threading.get_ident
+
+  def get_ident():
+    sim = CURRENT_SIM
+    if sim is not None:
+      f = sys._getframe(1)
+      if _in_repo(f.f_code.co_filename):
+        me = sim.current_thread()
+        if me is not None:
+          return sim.sim_ident(me)
+    return real_get_ident()
+  get_ident.__doc__ = real_get_ident.__doc__
+  threading.get_ident = get_ident
   # Thread creation from repo code
   _orig_thread_init = threading.Thread.__init__
 
